@@ -1,9 +1,7 @@
 CONSTANTS
-  NN = 3
-  Stride = 3
   ColonParse = FALSE
   AdjustFix = FALSE
 INIT Init
 NEXT Next
-INVARIANTS ReassembleInv SchurOpInv Type1Inv Type2Inv
+INVARIANT PatternInv
 CHECK_DEADLOCK FALSE
